@@ -225,7 +225,9 @@ def adjacent_ranges(rng):
     return t1 + sep(rng) + t2, s1 + s2
 
 def _lit(k, v):
-    return "'%c'" % v if k == "c" else "%d%s" % (v, "h" if k == "h" else "")
+    # chars through _clit: a range that ends on the backslash or the quote is written with the escape,
+    # not in the mistyped form (quote backslash quote), which directly in front of "]" is an unfinished escape
+    return _clit(v) if k == "c" else "%d%s" % (v, "h" if k == "h" else "")
 
 def rich_array(rng, depth=0):
     """an array as the manual's grammar allows it: plain elements of one type; repetitions and
